@@ -108,3 +108,10 @@ Theorem C17_forger_swapped_refuted : exists (sched : list nat) (th : fthread), n
 Proof. exact @SchedForger.forger_swapped_refuted. Qed.
 Print Assumptions C17_forger_swapped_refuted.
 
+
+(* ---- machine I: retrievals that share no mutable state (Proofs/SchedIndep.v) ---- *)
+Require Import Sigtools.Proofs.SchedIndep.
+Theorem C17_indep_sequential : forall (progs : list (list N)) (sched : list nat) (t : nat) (th : ithread) (p : list N), nth_error (is_threads (irun (iinit progs) sched)) t = Some th -> nth_error progs t = Some p -> i_done th = true -> rev (i_trace th) = p.
+Proof. exact @SchedIndep.indep_sequential. Qed.
+Print Assumptions C17_indep_sequential.
+
